@@ -75,7 +75,19 @@ pub fn parse_xref_stream_and_trailer(lexer: &mut Lexer, resolve: &impl Resolve) 
     };
 
     let xref_stream = t!(Stream::<XRefInfo>::from_primitive(Primitive::Stream(xref_stream), resolve));
-    let mut data_left = &*t!(xref_stream.data(resolve));
+    // not through the stream cache: it is keyed by the object number, and the cross-reference streams of
+    // several revisions of a file may use the same number
+    let data = match xref_stream.inner_data {
+        StreamData::Original(ref range, id) => {
+            let mut data = t!(resolve.stream_data(id, range.clone()));
+            for filter in xref_stream.info.filters.iter() {
+                data = t!(crate::enc::decode(&data, filter)).into();
+            }
+            data
+        }
+        StreamData::Generated(_) => t!(xref_stream.data(resolve))
+    };
+    let mut data_left = &*data;
     
     let width = &xref_stream.w;
 
